@@ -27,6 +27,19 @@ Two population streams go through the *same* real `select`:
     the function says and loads to an agent equal (fingerprints of a save/load round trip) to the
     fittest agent of the OLD population; nothing is written when save_elite is off.
 
+  * "wrapped": populations of agents inside an agent wrapper — every concrete `AgentWrapper` subclass of
+    agilerl/wrappers/agent.py (RSNorm) x its constructor options at non-default values x vector / Dict / Tuple
+    observation spaces (running statistics held as one object / a dict per key / a tuple), agents that have acted in
+    training mode on batches of their own (statistics moved, different per member) and learned through the wrapper —
+    go through the same two suites: select() ("fam": index sequence against the model exactly as for plain agents;
+    a child equals its parent in every attribute group of the algorithm AND in every instance attribute of the
+    wrapper object, statistics walked element by element; what the wrapper feeds the algorithm on a probe; no shared
+    storage; changing a child's statistics leaves the parent's alone) and the evolution step ("wire").
+  * evolution step = select() FOLLOWED BY `Mutations.mutation` (inside "wire", every mutation kind, mutate_elite on /
+    off): the elite object select() returned is recorded; no object appears twice among elite + returned generation +
+    old population; after the mutation the elite is still a copy of the fittest old agent (all attribute groups, action
+    on the probe); hyper-parameters of a returned member differ from its parent's in the sampled one (`mut`) at most.
+
   * "initpop": the INITIAL population.  `py2lean_pop.py` translates `create_population` (every `algo == …` branch) and
     `EvolvableAlgorithm.population` into `lean/Gen/PopGen.lean` (members as provenance terms, loop bound and `index=`
     as integer expressions); `Proofs/PopGenEq.lean` proves it equal to `Tournament.initialPop` (length, index =
@@ -86,7 +99,10 @@ from common import ROOT, Check, InfraError, ddmin
 TAG = "verif_tag"
 FAM = "verif_family"          # (algo, observation family) on agents built through agents.py; copied by clone()
 # attribute groups (walker.py) that legitimately differ between a parent and its copy
-DIFFER_OK = {"attr:index", "attr:" + TAG}
+DIFFER_OK = {"attr:index", "attr:" + TAG, "wrap:" + TAG}
+# constructor options of the agent wrappers (agilerl/wrappers/agent.py), each set to a non-default value; a wrapper
+# class that is not listed is built with its defaults.  An option set the constructor rejects is skipped.
+WRAPPER_OPTIONS = {"RSNorm": [{}, {"epsilon": 2.0 ** -6}, {"norm_obs_keys": ["vec"]}]}
 FINDING_ACT = "C05-clone-encoder-output-activation"
 # explicit activations: see `probe_encoder_activation` for what happens without them
 NET_CONFIG = {"encoder_config": {"hidden_size": [4], "activation": "ReLU"},
@@ -154,6 +170,37 @@ class Pool:
             lst.append(a)
         return lst[j]
 
+    def wrapped(self, spec: dict, algo: str, family: str, j: int):
+        """j-th agent of `algo` over `family` inside the agent wrapper `spec` = {"cls": name, "kwargs": {...}}.
+        It has acted twice in training mode on batches of its own (a wrapper that keeps running statistics has
+        updated them: every member of a population normalises differently) and learned through the wrapper.
+        Whether acting / learning works for the combination is not C05's subject: if the wrapper's statistics did
+        not move that way they are moved through the statistics objects' own `update`."""
+        import agents as A
+        key = ("wrapped", spec["cls"], json.dumps(spec.get("kwargs", {}), sort_keys=True), algo, family)
+        lst = self.families.setdefault(key, [])
+        while len(lst) <= j:
+            k = len(lst)
+            inner = A.build(algo, family, seed=4300 + k, index=k, hp_config=A.default_hp_config(algo))
+            w = wrapper_classes()[spec["cls"]](inner, **spec.get("kwargs", {}))
+            before = [t.detach().clone() for t in wrapper_state(w)]
+            for st in range(2):
+                obs = A.sample_obs(w, algo, family, 4 + st, seed=3 + st + 7 * k)
+                for step in (lambda: A.greedy_action(w, algo, obs, torch_seed=5 + st, preserve_state=False),
+                             lambda: A.learn_once(w, algo, family, seed=20 + st + k)):
+                    try:
+                        step()
+                    except Exception:
+                        pass
+            after = wrapper_state(w)
+            if len(after) == len(before) and all(x.shape == y.shape and torch.equal(x, y) for x, y in zip(after, before)):
+                torch.manual_seed(4400 + k)
+                for so in statistics_objects(w):
+                    so.update((k + 1.0) * torch.rand((5 + k,) + tuple(so.mean.shape)) - 0.25 * k)
+            setattr(w, FAM, (algo, family))
+            lst.append(w)
+        return lst[j]
+
     @staticmethod
     def build(seed: int, index: int, net_config=None):
         from gymnasium import spaces
@@ -177,6 +224,91 @@ class Pool:
 
 def is_stub(a) -> bool:
     return isinstance(a, StubAgent)
+
+
+def wrapper_classes() -> dict:
+    """every concrete AgentWrapper subclass agilerl/wrappers/agent.py defines (RSNorm, …), by name"""
+    import inspect
+    import agilerl.wrappers.agent as WA
+    return {n: c for n, c in sorted(vars(WA).items())
+            if inspect.isclass(c) and issubclass(c, WA.AgentWrapper) and c is not WA.AgentWrapper
+            and not inspect.isabstract(c)}
+
+
+def unwrap(a):
+    """(algorithm, wrapper or None)"""
+    if is_stub(a):
+        return a, None
+    import walker
+    return walker.unwrap(a)
+
+
+def wrapper_state(w, depth: int = 0, seen=None) -> list:
+    """the tensors a wrapper object holds itself (not the wrapped algorithm's): instance attributes, dict- / list- /
+    tuple-valued ones element by element, plain objects (running statistics) through their __dict__"""
+    if seen is None:
+        seen = set()
+    out = []
+    items = [v for k, v in vars(w).items() if k != "agent"] if depth == 0 else [w]
+    for v in items:
+        if id(v) in seen or depth > 4:
+            continue
+        seen.add(id(v))
+        if isinstance(v, torch.Tensor):
+            out.append(v)
+        elif isinstance(v, dict):
+            for e in v.values():
+                out += wrapper_state(e, depth + 1, seen)
+        elif isinstance(v, (list, tuple)):
+            for e in v:
+                out += wrapper_state(e, depth + 1, seen)
+        elif hasattr(v, "__dict__") and not callable(v) and not isinstance(v, (torch.nn.Module, type)) \
+                and type(v).__module__.startswith("agilerl"):
+            for e in vars(v).values():
+                out += wrapper_state(e, depth + 1, seen)
+    return out
+
+
+def statistics_objects(w, depth: int = 0, seen=None) -> list:
+    """the running-statistics objects a wrapper holds (objects with an `update(batch)` method and a `mean` tensor)"""
+    if seen is None:
+        seen = set()
+    out = []
+    items = [v for k, v in vars(w).items() if k != "agent"] if depth == 0 else [w]
+    for v in items:
+        if id(v) in seen or depth > 4:
+            continue
+        seen.add(id(v))
+        if isinstance(v, dict):
+            for e in v.values():
+                out += statistics_objects(e, depth + 1, seen)
+        elif isinstance(v, (list, tuple)):
+            for e in v:
+                out += statistics_objects(e, depth + 1, seen)
+        elif callable(getattr(v, "update", None)) and isinstance(getattr(v, "mean", None), torch.Tensor):
+            out.append(v)
+    return out
+
+
+def all_groups(a) -> dict:
+    """walker attribute groups of an agent: every network, optimizer and other attribute of the algorithm and — for
+    an agent inside an AgentWrapper — `wrap:<name>` for every instance attribute of the wrapper object (its running
+    statistics walked element by element: dict / tuple / list entries, each statistics object through its __dict__)"""
+    import walker
+    inner, w = unwrap(a)
+    groups = walker.family_groups(a)
+    if w is not None:
+        for name in sorted(vars(w)):
+            v = vars(w)[name]
+            if name == "agent" or "wrap:" + name in groups or callable(v):
+                continue
+            cells: dict = {}
+            walker.walk(v, cells, name)
+            g = {"kind": walker.classify(v, False), "cells": cells}
+            if walker.is_immutable(v):
+                g["imm"] = repr(v)
+            groups["wrap:" + name] = g
+    return groups
 
 
 def fam_of(a):
@@ -220,11 +352,38 @@ def forward_of(a):
         import agents as A
         try:
             obs = A.sample_obs(a, fam[0], fam[1], 3, seed=17)
+            w = unwrap(a)[1]
+            if w is not None:
+                return wrapped_forward(a, w, fam[0], obs)
             return ["greedy", A.greedy_action(a, fam[0], obs, torch_seed=7, preserve_state=True)]
         except Exception as ex:   # an agent that can no longer act is reported through the comparison
             return ["raised", type(ex).__name__]
     with torch.no_grad():
         return [a.actor(PROBE_OBS).clone(), a.actor_target(PROBE_OBS).clone()]
+
+
+def wrapped_forward(a, w, algo: str, obs):
+    """what a wrapped agent computes on a probe, without side effect: evaluation mode (a wrapper that keeps running
+    statistics only updates them in training mode), the greedy action AND the observation the wrapper hands to the
+    algorithm's own get_action (= the probe seen through the wrapper's state)"""
+    import agents as A
+    fed = []
+    orig = vars(w).get("agent_get_action")
+    was = bool(a.training)
+
+    def recording(o, *args, **kw):
+        fed.append(copy.deepcopy(o))
+        return orig(o, *args, **kw)
+    try:
+        a.set_training_mode(False)
+        if orig is not None:
+            object.__setattr__(w, "agent_get_action", recording)
+        act = A.greedy_action(a, algo, obs, torch_seed=7, preserve_state=True)
+    finally:
+        if orig is not None:
+            object.__setattr__(w, "agent_get_action", orig)
+        a.set_training_mode(was)
+    return ["greedy", act, "fed", fed]
 
 
 def groups_of(a):
@@ -234,7 +393,7 @@ def groups_of(a):
     if fam_of(a) is None:
         return None
     import walker
-    return {n: walker.group_value(g) for n, g in walker.agent_groups(a).items()}
+    return {n: walker.group_value(g) for n, g in all_groups(a).items()}
 
 
 def snapshot(a) -> dict:
@@ -373,8 +532,18 @@ def perturb(o):
         saved = p.detach().clone()
         with torch.no_grad():
             p.add_(1.0)
+    # a wrapped agent: also the wrapper's own state (first statistics tensor), in place
+    w = unwrap(o)[1]
+    wt = wrapper_state(w)[:1] if w is not None else []
+    wsaved = [t.detach().clone() for t in wt]
+    with torch.no_grad():
+        for t in wt:
+            t.add_(1.0)
 
     def undo():
+        with torch.no_grad():
+            for t, sv in zip(wt, wsaved):
+                t.copy_(sv)
         o.fitness.pop()
         o.scores.pop()
         o.steps.pop()
@@ -433,7 +602,7 @@ def alias_problems(pop: list, objs: list) -> list[str]:
         return []
     import walker
     labelled = [(f"population[{j}]", a) for j, a in enumerate(pop)] + list(objs)
-    groups = {i: walker.agent_groups(o) for i, (_, o) in enumerate(labelled)}
+    groups = {i: all_groups(o) for i, (_, o) in enumerate(labelled)}
     out = []
     for i, ga, j, gb in sorted(walker.alias_pairs(groups)):
         if i < len(pop) and j < len(pop):
@@ -730,7 +899,10 @@ def build_population(kind: str, specs: list, pool: Pool, case: dict | None = Non
         if kind == "real":
             a = pool.get(j)
         elif kind in ("fam", "wire"):
-            a = pool.family(case["algo"], case.get("family", "vector"), j)
+            if case.get("wrapper"):
+                a = pool.wrapped(case["wrapper"], case["algo"], case.get("family", "vector"), j)
+            else:
+                a = pool.family(case["algo"], case.get("family", "vector"), j)
         else:
             a = StubAgent(j)
         a.index = int(spec["index"])
@@ -760,6 +932,7 @@ def run_case(case: dict, pool: Pool):
         Pool.template()
     if case["kind"] == "fam":
         tags.append(f"family-{case['algo']}")
+    tags += wrapper_tags(case)
     segments = segments_of(case)
     if not segments[0]["agents"] and len(segments) == 1:
         try:
@@ -826,6 +999,33 @@ def run_case(case: dict, pool: Pool):
     return impl, ops, problems, tags
 
 
+def wrapper_tags(case: dict) -> list:
+    w = case.get("wrapper")
+    if not w:
+        return []
+    return [f"wrapped-{w['cls']}", f"wrapped-{w['cls']}-obs-{case.get('family', 'vector')}",
+            "wrapper-options-" + ("default" if not w.get("kwargs") else "+".join(sorted(w["kwargs"])))]
+
+
+def wrapper_specs(family: str) -> list:
+    """every agent wrapper class of the library x its option sets (those its constructor accepts on `family`)"""
+    import agents as A
+    if family not in _SPEC_CACHE:
+        out = []
+        for name, cls in wrapper_classes().items():
+            for kw in WRAPPER_OPTIONS.get(name, [{}]):
+                try:
+                    cls(A.build("DQN", family, seed=1), **kw)
+                except Exception:
+                    continue                # e.g. RSNorm(norm_obs_keys=[...]) on a Dict space raises in build_rms
+                out.append({"cls": name, "kwargs": dict(kw)})
+        _SPEC_CACHE[family] = out
+    return [dict(sp, kwargs=dict(sp["kwargs"])) for sp in _SPEC_CACHE[family]]
+
+
+_SPEC_CACHE: dict = {}
+
+
 def gen_family_case(rng: random.Random, algo: str, family: str = "vector", wire: bool = False) -> dict:
     """select() (kind "fam") or tournament_selection_and_mutation (kind "wire") on real agents of `algo`
     that have acted and learned"""
@@ -846,6 +1046,57 @@ def gen_family_case(rng: random.Random, algo: str, family: str = "vector", wire:
         case["mutate_elite"] = rng.random() < 0.5
         case["mutation"] = rng.choice(["param", "param", "rl_hp", "none", "act", "arch", "mixed"])
     return case
+
+
+WRAPPED_FAMILIES = ["vector", "dict", "tuple"]
+WRAPPED_ALGOS_QUICK = ["DQN", "DDPG"]
+WRAPPED_ALGOS_MORE = ["TD3", "CQN", "MADDPG"]
+MUTATION_KINDS = ["rl_hp", "param", "arch", "act", "none", "mixed"]
+
+
+def wrapped_cases(rng: random.Random, quick: bool) -> list:
+    """per (wrapper class, option set, observation family): one select() case (kind "fam") and one evolution-step
+    case (kind "wire", nothing check-pointed: `Algo.load` does not restore wrappers).  quick: every class with default
+    options on every family + two drawn non-default option sets; thorough: the full grid over more algorithms."""
+    combos = []
+    for fam in WRAPPED_FAMILIES:
+        specs = wrapper_specs(fam)
+        default = [sp for sp in specs if not sp["kwargs"]]
+        other = [sp for sp in specs if sp["kwargs"]]
+        if quick:
+            combos += [(sp, fam, "DQN") for sp in default]
+            combos += [(sp, fam, "DQN") for sp in (rng.sample(other, 1) if other and fam != "vector" else [])]
+        else:
+            combos += [(sp, fam, a) for sp in specs for a in ["DQN", rng.choice(WRAPPED_ALGOS_QUICK[1:] + WRAPPED_ALGOS_MORE)]]
+    if quick and combos:
+        sp, fam, _ = rng.choice(combos)
+        combos.append((sp, fam, rng.choice(WRAPPED_ALGOS_QUICK[1:])))
+    out = []
+    kinds = list(MUTATION_KINDS)
+    rng.shuffle(kinds)
+    for i, (sp, fam, algo) in enumerate(combos):
+        c = gen_family_case(rng, algo, fam)
+        c["wrapper"] = sp
+        if len(c["agents"]) < 2:
+            c["agents"] = gen_agents(rng, 3, c["cfg"][3], [Fraction(v) for v in c["pool"]], "offset")
+        c["cfg"][2] = max(c["cfg"][2], 3)           # at least two tournament children: a sequence of fresh indices
+        out.append(c)
+        w = gen_family_case(rng, algo, fam, wire=True)
+        if len(w["agents"]) < 2:
+            w["agents"] = gen_agents(rng, 2, w["cfg"][3], [Fraction(v) for v in w["pool"]], "low")
+        w["cfg"][2] = max(w["cfg"][2], 2)
+        w.update(wrapper=sp, save_elite=False, elite_path=None, mutation=kinds[i % len(kinds)],
+                 mutate_elite=bool((i // len(kinds) + i) % 2 == 0))
+        out.append(w)
+    # the configuration in which the elite and the first member are furthest apart: elitism, mutate_elite, a
+    # hyper-parameter mutation of every member
+    if combos:
+        sp, fam, algo = combos[rng.randrange(len(combos))]
+        w = gen_family_case(rng, "DQN", fam, wire=True)
+        w.update(wrapper=sp, save_elite=False, elite_path=None, mutation="rl_hp", mutate_elite=True,
+                 cfg=[2, True, 3, w["cfg"][3]])
+        out.append(w)
+    return out
 
 
 def mutations_for(kind: str, mutate_elite: bool, seed: int):
@@ -888,9 +1139,20 @@ def run_wire_case(case: dict, pool: Pool):
             "wiring-len(pop)" + ("==" if len(case["agents"]) == cfg[2] else "!=") + "population_size",
             "elitism-on" if cfg[1] else "elitism-off",
             f"mutation-{case['mutation']}", "mutate-elite" if case["mutate_elite"] else "keep-elite",
-            "save-elite" if case["save_elite"] else "no-save"]
+            "save-elite" if case["save_elite"] else "no-save"] + wrapper_tags(case)
     ts = TournamentSelection(*cfg)
+    # the objects select() hands to the wiring (the elite never leaves tournament_selection_and_mutation otherwise)
+    selected: list = []
+    real_select = ts.select
+
+    def recording_select(population):
+        r = real_select(population)
+        selected.append(r)
+        return r
+    ts.select = recording_select
     pop = build_population("wire", case["agents"], pool, case)
+    hp_names = list(pop[0].registry.hp_config.names()) if getattr(pop[0].registry, "hp_config", None) else []
+    hp0 = [{n_: getattr(a, n_) for n_ in hp_names} for a in pop]
     mut = mutations_for(case["mutation"], case["mutate_elite"], case["seed"])
     snaps = [snapshot(a) for a in pop]
     tmp = tempfile.mkdtemp(prefix="c05wire_")
@@ -972,6 +1234,44 @@ def run_wire_case(case: dict, pool: Pool):
             d = snapshot_diff(a, s_)
             if d:
                 problems.append(f"old population changed by selection/mutation: position {j}: {'; '.join(d)}")
+        # ---- one evolution step = select() FOLLOWED BY Mutations.mutation: the elite select() returned, every member
+        #      of the new generation and every member of the old one are objects of their own, and after the mutation
+        #      of the new generation the elite is still what it was: a copy of the fittest old agent
+        how = f"Mutations.mutation ({case['mutation']}, mutate_elite={bool(case['mutate_elite'])})"
+        if len(selected) == 1:
+            elite = selected[0][0]
+            objs = [("the elite select() returned", elite)] + [(f"returned member {j}", c) for j, c in enumerate(new)] \
+                + [(f"old population[{j}]", a) for j, a in enumerate(pop)]
+            for i in range(len(objs)):
+                for j in range(i + 1, len(objs)):
+                    if objs[i][1] is objs[j][1]:
+                        problems.append(f"{objs[i][0]} and {objs[j][0]} are one object: what {how} does to one of them "
+                                        f"happens to the other")
+            te = getattr(elite, TAG, None)
+            if isinstance(te, int) and 0 <= te < len(pop):
+                if snaps[te].get("groups") is not None:
+                    d = group_diff(groups_of(elite) or {}, snaps[te]["groups"], skip=DIFFER_OK)
+                    if d:
+                        problems.append(f"after {how} of the new generation the elite select() returned is no longer a "
+                                        f"copy of the fittest old agent (position {te}): {', '.join(d[:8])} differ"
+                                        + (" — it is the same object as returned member 0" if new and elite is new[0] else ""))
+                if not same_fwd(forward_of(elite), snaps[te]["fwd"]):
+                    problems.append(f"after {how} of the new generation the elite select() returned acts differently "
+                                    f"from the fittest old agent (position {te})")
+            else:
+                problems.append("the elite select() returned carries no recoverable parent")
+        else:
+            tags.append(f"select-called-{len(selected)}-times")
+        # exactly the sampled hyper-parameter of exactly the mutated member changes (no hyper-parameter at all for the
+        # other mutation kinds); elite and old population are covered by the fingerprints above
+        for j, c in enumerate(new):
+            t = getattr(c, TAG, None)
+            if not (isinstance(t, int) and 0 <= t < len(pop)):
+                continue
+            moved = [n_ for n_ in hp_names if not same_value(getattr(c, n_), hp0[t][n_])]
+            if [n_ for n_ in moved if n_ != c.mut]:
+                problems.append(f"returned member {j} (copy of position {t}, mut={c.mut!r}): hyper-parameters {moved} "
+                                f"differ from its parent's after {how}")
         # ---- the check-pointed elite
         written = sorted(os.path.join(dp, f) for dp, _, fs in os.walk(tmp) for f in fs)
         loaded_line = "E * *"
@@ -1720,7 +2020,10 @@ def run(chk: Check) -> None:
                 "every algorithm family whose agents have acted and learned (all state compared with the parent's "
                 "through walker fingerprints); tournament_selection_and_mutation with a real Mutations object, "
                 "save_elite on/off, elite_path variants, elitism on/off, mutate_elite on/off (the check-pointed elite "
-                "must load to the fittest old agent); distinct = distinct case; non-trivial = a tournament drew two different agents "
+                "must load to the fittest old agent; the elite object select() returned must still equal the fittest old "
+                "agent after the mutation step; no object shared between elite, new and old population); the same two "
+                "suites on populations of WRAPPED agents (every AgentWrapper subclass x constructor options x vector / "
+                "Dict / Tuple observation spaces, statistics already moved); distinct = distinct case; non-trivial = a tournament drew two different agents "
                 "or the top mean is tied")
     chk.assumptions = [
         "fitness scores in the correspondence are small integers or quarters, so float sums are exact and the "
@@ -1776,6 +2079,9 @@ def run(chk: Check) -> None:
         c.update(cfg=[rng.randint(1, npop_ + 1), e_, n_, w_], save_elite=True, mutate_elite=True, mutation=mk,
                  agents=gen_agents(rng, npop_, w_, [Fraction(v) for v in c["pool"]], "offset"))
         cases.append(c)
+    # populations of WRAPPED agents (every AgentWrapper subclass x its constructor options) on vector / Dict / Tuple
+    # observation spaces, statistics already moved: select() alone and the evolution step select() -> mutation
+    cases += wrapped_cases(rng, quick)
     # rejected inputs: the constructor's assertions and the empty population
     for bad in ([0, True, 3, 2], [2, True, 0, 2], [2, False, 3, 0]):
         cases.append({"kind": "stub", "cfg": bad, "agents": [{"index": 0, "fitness": ["1"]}], "seed": 1, "gens": 1})
@@ -1934,7 +2240,48 @@ def selftest(chk: Check, pool: Pool) -> None:
         c.fitness = self.fitness                                         # fault: history list shared
         return c
 
+    # ---- wrapped populations and the evolution step (select -> mutation)
+    import agilerl.wrappers.agent as WA
+    orig_wclone = WA.AgentWrapper.clone
+    orig_copy = EvolvableAlgorithm.copy_attributes
+
+    def wclone_drops_index(self, index=None, wrap=True):
+        return orig_wclone(self, None, wrap)                             # fault: the fresh index never reaches the agent
+
+    def copy_attributes_keeps_fresh_dicts(agent, clone):
+        keep = {n: v for n, v in vars(clone).items()
+                if isinstance(v, dict) and isinstance(vars(agent).get(n), dict) and v.keys() == vars(agent)[n].keys()}
+        out = orig_copy(agent, clone)
+        for n, v in keep.items():                                        # fault: dict-valued attributes stay as constructed
+            object.__setattr__(out, n, v)
+        return out
+
+    def wclone_shares_statistics(self, index=None, wrap=True):
+        c = orig_wclone(self, index, wrap)
+        for n, v in vars(self).items():
+            if n != "agent" and wrapper_state(v, 1):                     # fault: the statistics objects are shared
+                object.__setattr__(c, n, v)
+        return c
+
+    rsn = {"cls": next(iter(wrapper_classes())), "kwargs": {}}
+    st_agents = [{"index": 0, "fitness": ["1", "2"]}, {"index": 1, "fitness": ["0"]}, {"index": 5, "fitness": ["2", "2"]}]
+    wrap_cases = [{"kind": "fam", "algo": "DQN", "family": f, "cfg": [2, e, 3, 2], "seed": 61 + i, "gens": 1,
+                   "pool": ["0", "1", "2"], "agents": st_agents, "wrapper": rsn}
+                  for i, (f, e) in enumerate((("dict", True), ("vector", False), ("tuple", True)))]
+    evo_cases = [{"kind": "wire", "algo": "DQN", "family": "vector", "cfg": [2, True, 3, 2], "seed": 71 + i, "gens": 1,
+                  "pool": ["0", "1", "2"], "agents": st_agents, "save_elite": False, "elite_path": None,
+                  "mutate_elite": True, "mutation": m, **({"wrapper": rsn} if i == 1 else {})}
+                 for i, m in enumerate(("rl_hp", "param", "arch"))]
+
     faults = [
+        ("AgentWrapper.clone drops the fresh index (wrapped populations)", WA.AgentWrapper, "clone", wclone_drops_index,
+         wrap_cases),
+        ("dict-valued attributes (per-key running statistics of a wrapper) are left as freshly constructed",
+         EvolvableAlgorithm, "copy_attributes", copy_attributes_keeps_fresh_dicts, wrap_cases[:1]),
+        ("wrapper clones share the parent's statistics objects", WA.AgentWrapper, "clone", wclone_shares_statistics,
+         wrap_cases),
+        ("slot 0 of the new generation is the elite object itself: the mutation step moves the elite", TS, "select",
+         select_elite_is_member0, evo_cases),
         ("rank inverted in _tournament", TS, "_tournament", argmin_tournament, stub_cases),
         ("elite = worst agent", TS, "_elitism", worst_elite, stub_cases),
         ("indices from max_id instead of max_id+1", TS, "select", select_from_max_id, stub_cases),
@@ -1952,8 +2299,8 @@ def selftest(chk: Check, pool: Pool) -> None:
          "tournament_selection_and_mutation", wiring_saves_member0, wire_cases),
     ]
     for name, owner, attr, fn, cases in faults:
-        orig = getattr(owner, attr)
-        setattr(owner, attr, fn)
+        orig = vars(owner).get(attr, getattr(owner, attr))               # the descriptor itself (staticmethod)
+        setattr(owner, attr, staticmethod(fn) if isinstance(orig, staticmethod) else fn)
         try:
             res = evaluate(chk, cases, pool)
         finally:
@@ -1964,7 +2311,8 @@ def selftest(chk: Check, pool: Pool) -> None:
             raise InfraError(f"C05 self-test: seeded fault '{name}' was not noticed by the oracle")
         chk.notes.append(f"self-test: '{name}' noticed (oracle {by_oracle}/{len(res)} cases, model diff {by_diff}/{len(res)})")
     # and the unpatched implementation is clean on the same cases
-    res = evaluate(chk, stub_cases[:20] + session_cases[:20] + [real_case] + fam_cases + wire_cases, pool)
+    res = evaluate(chk, stub_cases[:20] + session_cases[:20] + [real_case] + fam_cases + wire_cases + wrap_cases
+                   + evo_cases, pool)
     if any(p or d is not None for d, p, *_ in res):
         raise InfraError("C05 self-test: the restored implementation is flagged on the self-test cases")
     # initial population: seeded faults in create_population (every member numbered 0 / one member short / the first
